@@ -762,6 +762,15 @@ native_long_sign(arg_t *arg, asn1cnst_range_t *r) {
 			return 0;
 		else
 			return 1;
+	} else if(r->left.type == ARE_VALUE && r->left.value >= 0
+		&& (r->left.value > 0 || r->right.type == ARE_VALUE || r->el_count)
+		&& asn1c_type_fits_long(arg, arg->expr) == FL_NOTFIT) {
+		/*
+		 * An INTEGER_t which holds non-negative values only is read
+		 * through asn_INTEGER2ulong(): values above LONG_MAX are valid.
+		 * (The plain (0..MAX) is checked by looking at the sign bit.)
+		 */
+		return 1;
 	} else {
 		return -1;
 	}
